@@ -78,9 +78,10 @@ def _is_arg_component(inp):
 @predicate("ivfun_atan2_within_quarter_ulp")
 def _atan2_round(inp):
     """mpf_atan2 computes atan(y/x) (and pi) rounded TO NEAREST at prec+4 bits and only then rounds in the requested
-    direction: endpoints can be on the wrong side by up to ~2^-3 ulp"""
+    direction: endpoints can be on the wrong side by up to 2^-3 ulp (2^-3 itself is reached: k = -2 in the magnitude convention
+    of excess_bits means an excess in [2^-3, 2^-2) ulp, i.e. still "within a quarter ulp" as the name of the predicate says)"""
     k = _k(inp)
-    return _contain(inp) and _is_arg_component(inp) and k is not None and k <= -3
+    return _contain(inp) and _is_arg_component(inp) and k is not None and k <= -2
 
 
 @predicate("ivfun_atan2_zero_y_x_straddles_zero")
